@@ -159,6 +159,8 @@ def gen_case(rng, profile, idx=0):
                 vserde = []
                 if rng.random() < 0.3:
                     vserde.append({"rename": rng.choice(RENAME_VARIANT_BAD if ("variant_bad" in triggers and rng.random() < 0.6) else RENAME_VARIANT_OK + RENAME_IDENT)})
+                elif rng.random() < 0.12 and vs:
+                    vserde.append({"skip": True})       # never the first one: at least one variant stays listed
                 vs.append({"name": v, "serde": vserde})
             items.append({"kind": "enum", "name": n, "derives": ["Serialize", "Deserialize"], "serde": serde, "variants": vs})
             continue
@@ -216,7 +218,7 @@ def gen_case(rng, profile, idx=0):
             params.append({"name": pname, "ty": ty})
         if rng.random() < 0.3 or "chan_kebab" in triggers:
             params.append({"name": rng.choice(["on_event", "progress_channel", "ch"]),
-                           "ty": P("Channel", clean_type(rng, 1, leaf_named or None), segs=rng.choice([[], ["tauri", "ipc"]]))})
+                           "ty": P("Channel", clean_type(rng, 1, leaf_named or None), segs=rng.choice([[], ["tauri", "ipc"], ["ipc"]]))})
             if rng.random() < 0.4:
                 params.append({"name": "log_channel", "ty": P("Channel", rng.choice([P("String"), P("Vec", P("u8")), P("LogEntry")]))})
         if rng.random() < 0.3:
